@@ -2,7 +2,7 @@
 import inspect
 import re
 
-from pbt import spec_table
+from pbt import optchild, spec_table
 from pbt.lib import commands
 from pbt.runner import Component, Violation
 
@@ -252,4 +252,12 @@ COMPONENTS = [
               distinct_by_construction=True, exhaustive=True,
               shards={'quick': 1, 'thorough': 1},
               describe='every (class, attribute, facet) obligation'),
+    Component('interpreter-flags', optchild.flagged('C14', check),
+              bulk=optchild.make_bulk('C14', ['catalogue'], flags=('-O', '-OO'),
+                                      skip_buckets=(('-OO', 'doc-default'),)),
+              distinct_by_construction=True, exhaustive=True,
+              shards={'quick': 1, 'thorough': 1},
+              describe='the same obligations in child interpreters started with -O and '
+                       '-OO (the docstring facet is skipped under -OO, which strips '
+                       'docstrings)'),
 ]
